@@ -29,6 +29,17 @@ def inline_builtin(expr: Expression, rules: Mapping[str, Rule]) -> Expression:  
 def inline_silent_rules(expr: Expression, rules: Mapping[str, Rule]) -> Expression:
     """Inline silent rules."""
     if isinstance(expr, Identifier) and not expr.tag:
+        rule = _inlinable(expr, rules)
+        # A rule that refers back to itself is never rid of the reference. Every
+        # application of this pass would just double the size of its body.
+        if rule and not _is_recursive(rule, rules):
+            return rule.expression
+    return expr
+
+
+def _inlinable(expr: Expression, rules: Mapping[str, Rule]) -> Rule | None:
+    """Return the silent rule `expr` refers to, if it could be inlined."""
+    if isinstance(expr, Identifier) and not expr.tag:
         rule = rules.get(expr.value)
         # The bodies of WHITESPACE and COMMENT are implicitly atomic, which an
         # inlined copy of the body would not be.
@@ -37,5 +48,22 @@ def inline_silent_rules(expr: Expression, rules: Mapping[str, Rule]) -> Expressi
             and rule.modifier & SILENT
             and rule.name not in ("WHITESPACE", "COMMENT")
         ):
-            return rule.expression
-    return expr
+            return rule
+    return None
+
+
+def _is_recursive(rule: Rule, rules: Mapping[str, Rule]) -> bool:
+    """True if `rule` can reach itself through references that would be inlined."""
+    seen: set[str] = set()
+    todo = [rule.expression]
+    while todo:
+        expr = todo.pop()
+        target = _inlinable(expr, rules)
+        if target:
+            if target.name == rule.name:
+                return True
+            if target.name not in seen:
+                seen.add(target.name)
+                todo.append(target.expression)
+        todo.extend(expr.children())
+    return False
